@@ -847,7 +847,7 @@ def shards(tier: str) -> list:
 
 
 BOUNDS = {
-    "quick": "scenarios: start() + 3 events (4-5 from the waiting-after-failure and connected states; 2 in the name/zeroconf variants) out of {next timer, +0.25 s, session end unexpected/expected, matching PTR / matching A / non-matching record batch, start(), stop()}; attempt outcomes {success, SocketAPIError, HandshakeAPIError, InvalidAuthAPIError} (all 8 classes for 2 events), phases take 0/1/3 virtual seconds; chains: 3 consecutive failures over all 7 error classes, 12 failures of one class with an auth error anywhere; back-off table n = 1..12 by z3",
+    "quick": "scenarios: start() + 3 events (4-5 from the waiting-after-failure and connected states; 2 in the name/zeroconf variants) out of {next timer, +0.25 s, session end unexpected/expected, matching PTR / matching A / non-matching record batch, start(), stop()}; attempt outcomes {success, SocketAPIError, HandshakeAPIError, InvalidAuthAPIError} (all 8 classes for 2 events), phases take 0/1/3 virtual seconds; loop settled after every event, or events injected into the same loop turn (1 s phases from start(); zero-delay phases from the connected / waiting states); chains: 3 consecutive failures over all 7 error classes, 12 failures of one class with an auth error anywhere; back-off table n = 1..12 by z3",
     "thorough": "start() + 4 events over the full alphabet (settled and same-turn modes; 3 in the zero-delay / name / zeroconf variants; 5-6 in total from the waiting / connected states), start() + 5 events over {next timer, unexpected end, matching PTR, start(), stop()} with outcomes {success, SocketAPIError}; chains of 4 over all 7 error classes; long chain of 16",
 }
 OUTSIDE = [
@@ -862,6 +862,9 @@ ASSUMPTIONS = [
     "zeroconf doubles (vf/stubs_zc.py): records reach the manager only through a registered listener, except while handshaking/connected where the batch is also handed over directly (the 'never' clause)",
     "ambiguities resolved as don't-care: after an auth/encryption error later non-auth failures may wait 60 s or the table value; a start() call may or may not reset the failure count; a record arriving while CONNECTING may or may not restart the attempt; a stale retry timer may restart an attempt that is still connecting",
     "SimLoop virtual-time scheduler with the real asyncio Task/Lock/timer code (DESIGN 1.3)",
+    "an event that is not enabled in the current state (session end without a session, record batch nobody could receive, timer advance without timer) ends the sequence; the shorter sequence is checked in full, including the stop() epilogue (stop, deliver matching records, end the session, run all timers for 200 s)",
+    "'listens while waiting' is read as: after a failed attempt, while the retry timer runs and the device name is known, a listener is registered; during the 5 s cool-down after an expected disconnect listening is don't-care",
+    "shards() dry-runs each fixed event prefix natively only to avoid generating vacuous shards (decides nothing)",
 ]
 EXPLANATION = ("C18: monitors inside the FakeClient and the callbacks check every attempt start (none while one is in flight / a session is live / after stop() returned; "
                "only at a time the statement allows: failure time + table delay, session end (+5 s if expected), matching record, start()), that due retries do happen, "
